@@ -10,7 +10,7 @@ Relations exercised on every run
 
 Document representation (JSON friendly; also the replay format)
   atom : ["i", n] | ["r", "p/q"] | ["n", "Name"] | ["R", objid] | ["null"]
-  val  : atom | ["a", [elem, ...]] | ["d", [[key, atom], ...]]      elem : atom | ["d", [[key, atom], ...]]
+  val  : atom | ["a", [val, ...]] | ["d", [[key, val], ...]]        (nested to any depth)
   obj  : ["D", [[key, val], ...]]  (a dictionary object: page-tree node, indirect Resources ...)  | val
   doc  : {"catalog": [[key, val], ...], "objs": [[objid, obj], ...], "glyph": {pageid: ["tx","ty"]}, "kind": ...}
 Objects 1 (catalog), 3 (Helvetica), 4 (font dictionary << /F1 3 0 R >>) and the content streams are added by
@@ -149,7 +149,7 @@ def val_to_w(v):
     if v[0] == "a":
         return [val_to_w(a) for a in v[1]]
     if v[0] == "d":
-        return {k: atom_to_w(a) for k, a in v[1]}
+        return {k: val_to_w(a) for k, a in v[1]}
     raise ValueError(v)
 
 
@@ -208,7 +208,7 @@ def val_txt(v) -> str:
     if v[0] == "a":
         return "[ " + "".join(val_txt(a) + " " for a in v[1]) + "]"
     if v[0] == "d":
-        return "{ " + "".join(f"{k} {atom_txt(a)} " for k, a in v[1]) + "}"
+        return "{ " + "".join(f"{k} {val_txt(a)} " for k, a in v[1]) + "}"
     raise ValueError(v)
 
 
@@ -645,6 +645,12 @@ class DocGen:
             pairs = [["Marker", ["i", marker]], ["Font", ["R", 4]]]
             if rng.random() < 0.5:
                 pairs.reverse()
+        if pairs and rng.random() < 0.35:
+            # the usual shape in real files: /Resources << /Font << /F1 3 0 R >> /ProcSet [ /PDF /Text ] >>
+            pairs = [[k, (["d", [["F1", ["R", 3]]]] if k == "Font" else v)] for k, v in pairs]
+            if rng.random() < 0.5:
+                pairs.append(["ProcSet", ["a", [["n", "PDF"], ["n", "Text"]]]])
+            self.b("resources:nested-direct")
         if rng.random() < 0.4:
             self.b("resources:indirect")
             return self.indirect(["D", pairs])
@@ -836,7 +842,8 @@ def add_wild(rng, doc, ctx=None) -> None:
         kind = rng.choice(["catalog-attr", "rotate-type", "type-unknown", "type-missing", "no-kids", "dangling-kid",
                            "int-kid", "box-name", "box-null", "box-int", "no-pages", "orphans", "ref-chain",
                            "null-attr", "atom-kid", "ref-cycle", "pages-array", "direct-kid", "direct-kid",
-                           "pages-direct", "long-chain"])
+                           "pages-direct", "long-chain", "array-kid", "box-nested-elem", "direct-kid-nested",
+                           "array-kid", "box-nested-elem", "direct-kid-nested", "direct-kid-nested"])
         if ctx is not None:
             ctx.branch("wild:" + kind)
         n = rng.choice(nodes) if nodes else None
@@ -914,6 +921,30 @@ def add_wild(rng, doc, ctx=None) -> None:
                     pairs.append(["Kids", rng.choice([["R", doc["root"]], put(["a", [["R", doc["root"]]]])])])
                 rng.shuffle(pairs)
                 ks.insert(rng.randint(0, len(ks)), ["d", pairs])
+        elif kind == "direct-kid-nested":
+            # a Page written directly into Kids with direct arrays / dictionaries inside it
+            inner = [x for x in nodes_of(doc, "Pages") if kids_list(doc, x) is not None]
+            if inner:
+                ks = kids_list(doc, rng.choice(inner))
+                pairs = [["Type", ["n", "Page"]],
+                         ["MediaBox", ["a", [["i", rng.choice([0, 300])], ["i", 2], ["r", "201/2"], ["i", rng.choice([300, 10])]]]],
+                         ["Resources", ["d", [["Marker", ["i", rng.randint(500, 599)]], ["Font", ["d", [["F1", ["R", 3]]]]]]]]]
+                if rng.random() < 0.5:
+                    pairs.append(["CropBox", ["a", [["i", 5], ["R", doc["root"]], ["i", 50], ["i", 60]]]])
+                if rng.random() < 0.5:
+                    pairs.append(["Rotate", ["i", rng.choice([90, 270, -90])]])
+                rng.shuffle(pairs)
+                ks.insert(rng.randint(0, len(ks)), ["d", pairs])
+        elif kind == "array-kid":
+            inner = [x for x in nodes_of(doc, "Pages") if kids_list(doc, x) is not None]
+            if inner:
+                ks = kids_list(doc, rng.choice(inner))
+                ks.insert(rng.randint(0, len(ks)), ["a", [["R", doc["root"]], ["d", [["Type", ["n", "Page"]]]]]])
+        elif kind == "box-nested-elem" and n is not None:
+            pairs = objs[n][1]
+            k = rng.choice(["MediaBox", "CropBox"])
+            bad = rng.choice([["a", [["i", 100]]], ["d", [["x", ["i", 1]]]], ["a", []]])
+            pairs[:] = [p for p in pairs if p[0] != k] + [[k, ["a", [["i", 0], ["i", 0], bad, ["i", 200]]]]]
         elif kind == "pages-direct":
             pairs = [["Type", ["n", rng.choice(["Page", "Pages", "Pages"])]], ["Rotate", ["i", 180]]]
             if rng.random() < 0.6:
